@@ -95,9 +95,15 @@ func fromBytes(data []byte) (byte, mh.Multihash, error) {
 //
 // It discards multihashes from the `StopProviding` operation if
 // `StartProviding` was called after `StopProviding` for the same multihash.
+//
+// The `StopProviding` operations are executed last. A `ProvideOnce` that was
+// called after a `StopProviding` for the same multihash must not be undone by
+// it (stopping takes the multihash off the provide queue): such multihashes are
+// returned in one more slot, at index lastOp, to be provided after the stops.
 func getOperations(dequeued [][]byte) ([][]mh.Multihash, error) {
 	stopProv := make(map[string]struct{})
 	ops := [lastOp - 1][]mh.Multihash{} // don't store stop ops
+	var provideOnceAfterStop []mh.Multihash
 
 	for _, bs := range dequeued {
 		op, h, err := fromBytes(bs)
@@ -106,7 +112,11 @@ func getOperations(dequeued [][]byte) ([][]mh.Multihash, error) {
 		}
 		switch op {
 		case provideOnceOp:
-			ops[provideOnceOp] = append(ops[provideOnceOp], h)
+			if _, stopped := stopProv[string(h)]; stopped {
+				provideOnceAfterStop = append(provideOnceAfterStop, h)
+			} else {
+				ops[provideOnceOp] = append(ops[provideOnceOp], h)
+			}
 		case startProvidingOp, forceStartProvidingOp:
 			delete(stopProv, string(h))
 			ops[op] = append(ops[op], h)
@@ -118,7 +128,7 @@ func getOperations(dequeued [][]byte) ([][]mh.Multihash, error) {
 	for hstr := range stopProv {
 		stopOps = append(stopOps, mh.Multihash(hstr))
 	}
-	return append(ops[:], stopOps), nil
+	return append(ops[:], stopOps, provideOnceAfterStop), nil
 }
 
 // executeOperation executes a provider operation on the underlying provider
@@ -182,6 +192,8 @@ func (s *SweepingProvider) worker() {
 		// once. Don't `StopProviding` multihashes, for which `StartProviding` has
 		// been called after `StopProviding`.
 		s.executeOperation(s.Provider.StopProviding, ops[stopProvidingOp])
+		// `ProvideOnce` called after `StopProviding` for the same multihash.
+		s.executeOperation(s.Provider.ProvideOnce, ops[lastOp])
 	}
 }
 
